@@ -249,6 +249,8 @@ func fixedPrograms(pool *poolSpec) []program {
 		mk(mMset, "summarize-nokey", true, false, "summarize count(), sum(x), min(x), max(x), avg(x)"),
 		mk(mMset, "summarize-nokey", true, false, "summarize cl:=collect(id), u:=union(x), dcount(id)"),
 		mk(mMset, "summarize", true, false, "summarize count(), sum(x), min(id), max(id), cl:=collect(id) by g"),
+		mk(mMset, "summarize-mixed", true, false, "summarize um:=union(mv), clm:=collect(mv), dm:=dcount(mv) by g"),
+		mk(mMset, "summarize-mixed-nokey", true, false, "summarize um:=union(mv), fm:=fuse(mv)"),
 		{Ops: []string{"summarize count(), sum(x), cl:=collect(id) by " + k}, Mode: mMset, OrderFree: true, Feature: "summarize-by-poolkey", Taints: gbT},
 		{Ops: []string{"count() by " + k}, Mode: mMset, OrderFree: true, Feature: "summarize-by-poolkey", Taints: gbT},
 		mk(mMset, "summarize-spill", true, false, "summarize count(), sum(x) by id with -limit 3"),
